@@ -300,7 +300,9 @@ fn bodies(d: usize, inner_forms: &[&'static str], arith_after: bool) -> Vec<E> {
                     for after in 0..3 {
                         let m = macro_of(form, range.clone(), NAMES[var], bd.clone());
                         if arith_after {
-                            v.push(E::Bin("+", b(flow(form, m)), b(nm(after))));
+                            v.push(E::Bin("+", b(flow(form, m.clone())), b(nm(after))));
+                            // ... and with the name read before the inner macro
+                            v.push(E::Bin("+", b(nm(after)), b(flow(form, m))));
                         } else if after == 0 {
                             // outer values of another numeric type: no arithmetic with them
                             v.push(flow(form, m));
@@ -371,7 +373,7 @@ fn part_b_profile(run: &mut Run, profile: &str, vals: [MV; 3]) {
                     // R.FORM(V, BODY) flowing into `+ after`: the name after the macro must see the outer binding
                     let m = macro_of(form, range.clone(), NAMES[var], bd.clone());
                     let e = if arith {
-                        E::List(vec![E::Bin("+", b(flow(form, m)), b(nm(after))), nm(var)])
+                        E::List(vec![nm(after), E::Bin("+", b(flow(form, m)), b(nm(after))), nm(var)])
                     } else {
                         // the macro's own value, then the names as seen after it
                         E::List(vec![m, nm(after), nm(var)])
